@@ -20,6 +20,25 @@ TRUSTED = [
 ]
 ASSUMPTIONS = ["the loader supplies an up-to-date check (a FunctionLoader returning a bare string cannot reload: excluded by the property)"]
 
+CLAIM = dict(
+    category="proof",
+    technique="Lean 4 proofs about a model of Environment._load_template over the reference LRU map (current source under "
+              "auto_reload for every history, stickiness without it, capacity invariant, select_template order) + exhaustive "
+              "differential histories on real environments with Dict/Function/FileSystem loaders",
+    text="Theorems (Props/C25.lean): with auto_reload and an up-to-date check, after every history of get/select/modify/delete "
+         "operations a get returns the template compiled from the loader's current source or TemplateNotFound "
+         "(autoreload_current, autoreload_history); without auto_reload a hit returns the cached version (no_autoreload_sticky); "
+         "with cache size 0 every get compiles (size0_recompiles); the cache never exceeds its capacity along any history "
+         "(cache_bound, after_inv); select_template returns the first loadable name (select_first). Tie: every history of length "
+         "<=4 (quick) / <=5 (thorough) over 9 operations on 3 names, plus random longer histories, x cache sizes 0/1/2/unbounded x "
+         "auto_reload on/off x DictLoader/FunctionLoader/FileSystemLoader: result, cache population and loader-call count after "
+         "every step equal the model's.",
+    note="Trusted: Lean kernel; hand model Model/TplCache.lean (tied by correspondence); the LRU is replaced by its reference "
+         "map (refinement proved in C26); file mtimes are forced to change by the harness; weakref identity of the environment "
+         "in the cache key is not modelled.",
+    design_ref="§5 C25",
+)
+
 NAMES = {0: "a", 1: "b", 2: "c"}
 OPS = [("get", 0), ("get", 1), ("select", (0, 1)), ("select", (1, 0)), ("select", (2, 0)), ("put", 0), ("put", 1), ("delete", 0),
        ("delete", 1)]
